@@ -130,14 +130,32 @@ def analyse(P, sag_graph, graph, to_mol):
 class FixedRng:
     """returns the recorded picks again (no validation): second run of the same stream"""
 
-    def __init__(self, picks):
+    def __init__(self, picks, others=None):
         self.picks, self.k = list(picks), 0
+        self.records = []  # (number of options, probability vector) per call
+        self.others, self.ko = list(others or []), 0  # values handed out by random / uniform / integers in the first run
 
     def __deepcopy__(self, memo):
         return self
 
+    def _other(self):
+        if self.ko >= len(self.others):
+            raise gendrive.ReplayDone()
+        self.ko += 1
+        return self.others[self.ko - 1][1]
+
+    def random(self, size=None):
+        return self._other()
+
+    def uniform(self, low=0.0, high=1.0, size=None):
+        return low + (high - low) * self._other()
+
+    def integers(self, low, high=None, size=None):
+        return self._other()
+
     def choice(self, a, size=None, replace=True, p=None, **kw):
         items = list(range(a)) if isinstance(a, int) else list(a)
+        self.records.append((len(items), None if p is None else list(p.v if hasattr(p, "v") else p)))
         if self.k >= len(self.picks):
             raise gendrive.ReplayDone()
         i = self.picks[self.k]
